@@ -379,6 +379,11 @@ class JavaRenderer:
         fn["fullStartLine"] = nl_ if (m["kind"] == "method" and not is_iface) else fn["startLine"]
         params = [[gtext(p["type"]), p["name"]] for p in m["params"]]
         amodel = [anno_model(a) for a in m.get("annos", [])]
+        # a generic class method `<T> T m(..)` is a genericMethodDeclaration: the listeners look for the modifiers on the
+        # grandparent of the methodDeclaration, which is then the memberDeclaration — they see no annotations and no modifiers
+        generic = bool(m.get("tparams")) and m["kind"] == "method" and not is_iface
+        if generic:
+            amodel = []
         if m["kind"] == "ctor":
             head = {"e": "enterCtor", "name": m["name"], "params": params, "emptyParams": not params, "startLine": nl_, "startCol": nc}
         elif is_iface:
@@ -391,8 +396,8 @@ class JavaRenderer:
         # the non-annotation modifiers (class methods only)
         annos_ = m.get("annos", [])
         head["ident"] = {"startLine": (nl_ if m["kind"] == "ctor" else fn["startLine"]), "startCol": (nc if m["kind"] == "ctor" else startcol),
-                         "firstAnno": (anno_model(annos_[0]) if annos_ else None),
-                         "mods": (list(m.get("mods", [])) if (m["kind"] == "method" and not is_iface) else [])}
+                         "firstAnno": (anno_model(annos_[0]) if annos_ and not generic else None),
+                         "mods": (list(m.get("mods", [])) if (m["kind"] == "method" and not is_iface and not generic) else [])}
         self.events.append(head)
         e.tok("(", glue=True)
         for i, p in enumerate(m["params"]):
